@@ -1,6 +1,6 @@
 SPECIFICATION FairSpec
 CONSTANTS
-  Pool = {"a", "b", "c", "d"}
+  Pool = {"a", "b", "c", "d", "root"}
   MaxItems = 3
   MaxTargets = 1
   MaxOdd = 0
